@@ -74,7 +74,7 @@ def scenes(ctx, rnd):
 def lattice(ctx, rnd):
     """(iii) lattice scenes: edges spanning several faces, degenerate query edges."""
     q = ctx.quick()
-    inv = ["ExactlyOnce", "ValidBackwards", "CrossSymmetric", "Emit"]
+    inv = ["ExactlyOnce", "ValidBackwards", "CrossSymmetric", "CellDemandsConsistent", "Emit"]
     cases = []
     for n, k, maxlen, total in ([(1, 8, 5, 26)] if q else [(1, 12, 5, 26), (2, 9, 5, 98), (2, 9, 5, 98)]):
         sub = set(rnd.sample(range(1, total + 1), k))
